@@ -93,15 +93,25 @@ RECURSIVE LexLt(_, _, _)
 LexLt(x, y, i) == IF i > Len(y) THEN FALSE ELSE IF i > Len(x) THEN TRUE
                   ELSE IF x[i].v < y[i].v THEN TRUE ELSE IF x[i].v > y[i].v THEN FALSE ELSE LexLt(x, y, i + 1)
 IntSeq(v) == v.t \in {"list", "tuple"} /\ \A i \in 1..Len(v.v) : Num(v.v[i])
+\* Python's ordering of sequences: the first position where the elements are not equal decides (elements after it
+\* are never compared); equal prefixes are ordered by length
+PyEq(a, b) == IF Num(a) /\ Num(b) THEN a.v = b.v ELSE VEq(a, b)
+RECURSIVE LtV(_, _)
+LtV(a, b) ==
+  IF Num(a) /\ Num(b) THEN BoolV(a.v < b.v)
+  ELSE IF a.t = b.t /\ a.t \in {"list", "tuple"}
+       THEN LET n == IF Len(a.v) < Len(b.v) THEN Len(a.v) ELSE Len(b.v)
+                diff == {i \in 1..n : ~PyEq(a.v[i], b.v[i])}
+            IN IF diff = {} THEN BoolV(Len(a.v) < Len(b.v))
+               ELSE LtV(a.v[CHOOSE i \in diff : \A j \in diff : i <= j], b.v[CHOOSE i \in diff : \A j \in diff : i <= j])
+       ELSE ErrV("TypeError", "*")
 ApplyOp(op, a) ==
   CASE op = "add" -> IF Num(a[1]) /\ Num(a[2]) THEN IntV(a[1].v + a[2].v)
                      ELSE IF a[1].t = a[2].t /\ a[1].t \in {"list", "tuple"} THEN V(a[1].t, a[1].v \o a[2].v)
                      ELSE ErrV("TypeError", "*")
     [] op = "sub" -> IF Num(a[1]) /\ Num(a[2]) THEN IntV(a[1].v - a[2].v) ELSE ErrV("TypeError", "*")
     [] op = "mul" -> IF Num(a[1]) /\ Num(a[2]) THEN IntV(a[1].v * a[2].v) ELSE ErrV("TypeError", "*")
-    [] op = "lt"  -> IF Num(a[1]) /\ Num(a[2]) THEN BoolV(a[1].v < a[2].v)
-                     ELSE IF a[1].t = a[2].t /\ IntSeq(a[1]) /\ IntSeq(a[2]) THEN BoolV(LexLt(a[1].v, a[2].v, 1))
-                     ELSE ErrV("TypeError", "*")
+    [] op = "lt"  -> LtV(a[1], a[2])
     [] op = "eq"  -> IF Num(a[1]) /\ Num(a[2]) THEN BoolV(a[1].v = a[2].v) ELSE BoolV(VEq(a[1], a[2]))
     [] op = "getitem" ->
          IF a[1].t \in {"list", "tuple"} /\ Num(a[2])
